@@ -3,7 +3,7 @@ replayed step by step on the Lean model (same reply bytes, same recv schedule)."
 from common import *
 import msref, refserver
 
-NAMES = ["a", "b", "main", 'q"uote', "back\\slash", "sp ace", "{5}", "{3+}", "OK", "NO x", "été", "x ACTIVE", "", "cr\r\nlf", "nul\0x"]
+NAMES = ["a", "b", "main", 'q"uote', "back\\slash", "sp ace", "{5}", "{3+}", "OK", "NO x", "été", "x ACTIVE", "", "cr\r\nlf", "nul\0x", "été\nhiver", "nul\0é€", "\r\n€"]
 SAFE_NAMES = ["a", "b", "main", 'q"uote', "back\\slash", "sp ace", "{5}", "OK", "NO x", "été", "BYE", "not active", "x ACTIVE"]
 BODIES = ['vacation "a\x0bb\x0cc";\r\n', "# d\u2028e\u2029f\u0085g\r\nkeep;\r\n", "x\x1cy\x1dz\x1e\r\n",
           "keep;", "", "line1\r\nline2\r\n", "OK\r\nNO \"x\"\r\n{3}\r\nBYE\r\n", "no newline at end", "é€😀\r\n", '"quoted"\r\n', "a\nb\rc\r\n",
